@@ -1,5 +1,5 @@
 import ClaripyProofs.Lemmas.VSA.Balancer
-import ClaripyProofs.Lemmas.VSA.BalancerFinal
+import ClaripyProofs.Lemmas.VSA.BalancerPair
 /-!
 # C25 — constraint_to_si never cuts off a satisfying assignment
 
@@ -20,7 +20,8 @@ every arm other than `+` / `-` keeps "the truism holds" (`C25_step_holds`), `+` 
 `C25_balance_rot`), the handlers turn a truism that holds into plain bounds (`C25_handle_sound`), and the composite
 `C25_balancer_sound`: the bounds `_doit` records contain the value of their expression under every satisfying assignment
 — for unsigned orderings on whose two paths (truism, implicit assumption) no constant is moved across `+` / `-`, and for
-`==` / `!=` on every path.  The guard is needed: `C25_mixed_path_cuts_off_model` is a concrete constraint (`ZeroExt(4, x) + 3 <= 5`)
+`==` / `!=` on every path; and `C25_pair_sound`: when both paths ONLY move constants across `+` / `-` and end at the same
+expression, the two recorded bounds form a wrapped interval that contains the value (all four unsigned orderings).  The guard is needed: `C25_mixed_path_cuts_off_model` is a concrete constraint (`ZeroExt(4, x) + 3 <= 5`)
 where the model — and the real code — bound `ZeroExt(4, x)` by the empty set although `x = 0` satisfies it (open finding).
 -/
 namespace Claripy.Props.C25
@@ -119,6 +120,23 @@ theorem C25_balancer_sound (op : CmpOp) (a b : BV) (bs : Bounds) (info : PathInf
     (h : doit anno (.cmp op a b) = .ok (.sat bs info)) (hcov : CoveredPt op info)
     (hsat : evalB env (.cmp op a b) = some true) : Sound env bs :=
   psound_sound env bs (doit_pt anno env hctx hnrm op a b bs info hoa hob hwab hop hsym h hcov hsat)
+
+/-- **the pair**: a truism `T0` whose left side is a sum / difference and its implicit assumption `A0`, both balanced only
+across `+` / `-` down to the same expression (exactly what `_doit` does with the two: `processTru`), record a lower and an
+upper bound that — read as the wrapped interval `_replacements_iter` builds — contain the value under every assignment
+satisfying `T0`.  This is the case in which each bound alone is NOT a consequence (`C25_lone_bound_not_a_preimage`). -/
+theorem C25_pair_sound (T0 A0 : Tru) (p1 p2 : Bounds × BalOut) (hokT : TruOK anno env T0) (hop : uOrd T0.op)
+    (hmod : isModLhs T0.lhs = true) (hconv : ∃ o p, convBV anno T0.lhs o = .ok p) (hhT : T0.holds env)
+    (hA : assumption T0 = some (.tru A0)) (h1 : processTru anno T0 [] = .ok p1) (h2 : processTru anno A0 p1.1 = .ok p2)
+    (hptT : p1.2.usedPt = false) (hptA : p2.2.usedPt = false) (hsame : p1.2.t.lhs = p2.2.t.lhs) : Sound env p2.1 := by
+  unfold processTru at h1 h2
+  obtain ⟨oT, hbT, h1⟩ := bindM_ok h1
+  obtain ⟨bs1, hh1, h1⟩ := bindM_ok h1
+  have := pureM_ok h1; subst this
+  obtain ⟨oA, hbA, h2⟩ := bindM_ok h2
+  obtain ⟨bs2, hh2, h2⟩ := bindM_ok h2
+  have := pureM_ok h2; subst this
+  exact pair_sound anno env hctx hnrm T0 A0 oT oA bs1 bs2 hokT hop hmod hconv hhT hA hbT hbA hptT hptA hsame hh1 hh2
 
 end
 
